@@ -140,9 +140,10 @@ Definition kwarg_eqb (x y : kwarg) : bool :=
 
 Definition has_kw (k : kwarg) (l : list kwarg) : bool := existsb (kwarg_eqb k) l.
 
-(** kwargs of [self.__class__(self.func, ...)] in [Task.options] *)
+(** kwargs of [self.__class__(self.func, ...)] in [Task.options] (export_options=set(self._export_options):
+    a copy of the current export set) *)
 Definition fwd_options (v : variant) : list kwarg :=
-  [KwName; KwNamespace; KwVersion; KwCompat; KwScript; KwSource; KwBase; KwOverride]
+  [KwName; KwNamespace; KwVersion; KwCompat; KwScript; KwSource; KwBase; KwOverride; KwExport]
   ++ match v with AsShipped => [] | Fixed => [KwIncludes] end.
 
 (** ... and in [Task.export_options] *)
@@ -268,7 +269,7 @@ Section TaskHash.
   Definition new_override (t : task) (upd : opts) : opts := dict_update (sanitize (t_override t)) upd.
 
   Definition options (vf : variant) (t : task) (upd : opts) : task :=
-    derive (fwd_options vf) t (new_override t upd) [].
+    derive (fwd_options vf) t (new_override t upd) (t_export t).
 
   Definition export_keys (t : task) (upd : opts) : list bytes :=
     t_export t ++ map fst upd
